@@ -20,6 +20,16 @@ def main():
     targeted = "--targeted" in sys.argv
     if targeted:
         sys.argv.remove("--targeted")
+    only_checks = None  # --checks C05,C18 : restrict the checks run on benign changes / untargeted rows
+    if "--checks" in sys.argv:
+        k = sys.argv.index("--checks")
+        only_checks = sys.argv[k + 1].split(",")
+        del sys.argv[k:k + 2]
+    out_name = None
+    if "--out" in sys.argv:
+        k = sys.argv.index("--out")
+        out_name = sys.argv[k + 1]
+        del sys.argv[k:k + 2]
     muts = sys.argv[1:] or sorted(d for d in os.listdir(os.path.join(VERIF, "seeded")) if os.path.isfile(os.path.join(VERIF, "seeded", d, "patch.diff")))
     shutil.rmtree(ROOT, ignore_errors=True)
     os.makedirs(ROOT)
@@ -28,7 +38,7 @@ def main():
     sh("sed -i 's#path = \"/repo\"#path = \"%s/repo\"#' %s/verif/harness/Cargo.toml" % (ROOT, ROOT))
     repo = ROOT + "/repo"
     env = dict(os.environ, VERIF_NO_EVIDENCE="1")
-    out_path = os.path.join(VERIF, "seeded", "regress.json" if targeted else "matrix.json")
+    out_path = os.path.join(VERIF, "seeded", out_name or ("regress.json" if targeted else "matrix.json"))
     matrix = {}
     if os.path.exists(out_path) and sys.argv[1:]:
         matrix = json.load(open(out_path))
@@ -39,7 +49,7 @@ def main():
                 matrix[m] = {"error": o[-300:]}
                 continue
             row = {}
-            ids = ALL
+            ids = only_checks or ALL
             if targeted and not m.startswith("benign"):
                 try:
                     prop = json.load(open("%s/verif/seeded/%s/meta.json" % (ROOT, m))).get("property", "")
